@@ -3,14 +3,16 @@ import TxdbusModel.Wire.InferTy
 Spec side of the second half of C19, written from the property statement:
 
 * `Travels okPath v t` - the Python value `v` conforms to the DBus type `t`, i.e. it can travel under
-  `t`: every scalar fits the range / form of the basic type it is sent as, containers conform element-wise,
-  a variant position holds any value that conforms to the type inferred for it.  This is the domain on
-  which the wire codec (C01/C02: `Spec.encode` accepts, `Spec.decode_encode`) round-trips.
-* `InClaim okPath v` - the hypothesis of the property: in each container the elements all share one DBus
-  type, or differ in Python type (and then travel as nested variants, or as their common base type
-  provided they fit it); every scalar fits the type inferred for it; no empty tuple; dict keys share
-  one basic type.
-`okPath` is the object-path validity test (Valid/ owns the real one; any predicate works here).
+  `t`: every scalar is of the class the basic type asks for and fits its range / form, containers conform
+  element-wise, a variant position holds any value that conforms to the type inferred for it.
+* `InClaim okPath v` - the hypothesis of the property: in each container the elements all have the class
+  of the first one and share one DBus type, or they differ in Python class (and then travel as nested
+  variants); every scalar fits the type inferred for it; dict keys share one basic type.
+  (Values without a DBus type - `()`, ints beyond 64 bits, a dict with container keys - have no inferred
+  type and are outside by `scalar` / `tuple` / the key conditions.)
+`okPath` is the object-path validity test (Valid/ owns the real one; Properties/C19 instantiates it).
+Not covered by `fitsBasic`: instances of the `Boolean` wrapper class (they infer 'b' and are sent as a
+boolean, but come back as `bool`; the wire proofs of C01 relate 'b' to `bool` values only).
 Core Lean only.
 -/
 namespace Txdbus
@@ -22,21 +24,20 @@ def Basic.intRange? : Basic → Option (Int × Int)
   | .x => some (-9223372036854775808, 9223372036854775808) | .t => some (0, 18446744073709551616)
   | _ => none
 
-/-- The scalar `pv` can be sent as basic type `c` and comes back equal. -/
+/-- The scalar `pv` is of the class basic type `c` asks for and fits it. -/
 def fitsBasic (okPath : List Char → Bool) (pv : PyVal) (c : Basic) : Bool :=
   match c.intRange? with
   | some (lo, hi) =>
-    match pv.asInt? with
-    | some n => decide (lo ≤ n) && decide (n < hi)
-    | none => false
+    match pv with
+    | .int _ n => decide (lo ≤ n) && decide (n < hi)
+    | _ => false
   | none =>
     match c, pv with
     | .b, .bool _ => true
-    | .b, .int .boolean n => n == 0 || n == 1
     | .d, .float _ => true
     | .s, .str _ s => !s.contains (Char.ofNat 0)
     | .o, .str _ s => !s.contains (Char.ofNat 0) && okPath s
-    | .g, .str _ s => s.all (fun ch => ch.toNat < 128 && ch.toNat ≠ 0) && decide (s.length ≤ 255)
+    | .g, .str _ s => s.all (fun ch => decide (ch.toNat < 128) && decide (ch.toNat ≠ 0)) && decide (s.length ≤ 255)
     | _, _ => false
 
 def PyVal.isScalar : PyVal → Bool
@@ -50,7 +51,7 @@ def PyVal.isScalar : PyVal → Bool
 inductive Travels (okPath : List Char → Bool) : PyVal → Ty → Prop
   | basic (pv : PyVal) (c : Basic) : fitsBasic okPath pv c = true → Travels okPath pv (.basic c)
   | variant (pv : PyVal) (t : Ty) : inferTy pv = some t → Travels okPath pv t → Travels okPath pv .variant
-  | list (xs : List PyVal) (el : Ty) : (∀ e, e ∈ xs → Travels okPath e el) →
+  | list (xs : List PyVal) (el : Ty) : el.notEntry = true → (∀ e, e ∈ xs → Travels okPath e el) →
       Travels okPath (.list xs) (.array el)
   | bytearray (bs : List UInt8) : Travels okPath (.bytearray bs) (.array (.basic .y))
   | tuple (xs : List PyVal) (fs : List Ty) : xs.length = fs.length →
@@ -60,37 +61,30 @@ inductive Travels (okPath : List Char → Bool) : PyVal → Ty → Prop
       (∀ kv, kv ∈ kvs → Travels okPath kv.1 kt) → (∀ kv, kv ∈ kvs → Travels okPath kv.2 vt) →
       Travels okPath (.dict kvs) (.array (.dict kt vt))
 
-/-- Element `e` may follow `first` in a container whose elements are all instances of the class of
-`first`: it has the same DBus type, or it is an instance of a different (sub)class that fits the
-basic type of `first` (the common base type). -/
-def sharesOrFits (okPath : List Char → Bool) (first e : PyVal) : Prop :=
-  inferTy e = inferTy first ∨
-  (e.pyType ≠ first.pyType ∧ ∃ c, inferTy first = some (.basic c) ∧ fitsBasic okPath e c = true)
-
 /-- The hypothesis of the round-trip claim. -/
 inductive InClaim (okPath : List Char → Bool) : PyVal → Prop
   | scalar (v : PyVal) (c : Basic) : v.isScalar = true → inferTy v = some (.basic c) →
       fitsBasic okPath v c = true → InClaim okPath v
   | bytearray (bs : List UInt8) : InClaim okPath (.bytearray bs)
   | listEmpty : InClaim okPath (.list [])
-  /-- all elements are instances of the first element's class: one DBus type, or the common base type -/
-  | listSame (x : PyVal) (xs : List PyVal) : allInstances x.pyType xs = true →
-      InClaim okPath x → (∀ e, e ∈ xs → InClaim okPath e) → (∀ e, e ∈ xs → sharesOrFits okPath x e) →
+  /-- all elements have the class of the first one and share its DBus type -/
+  | listSame (x : PyVal) (xs : List PyVal) : sameClass x.pyType xs = true →
+      InClaim okPath x → (∀ e, e ∈ xs → InClaim okPath e) → (∀ e, e ∈ xs → inferTy e = inferTy x) →
       InClaim okPath (.list (x :: xs))
-  /-- some element is not an instance of the first element's class: nested variants -/
-  | listMixed (x : PyVal) (xs : List PyVal) : allInstances x.pyType xs = false →
+  /-- the elements differ in Python class: nested variants -/
+  | listMixed (x : PyVal) (xs : List PyVal) : sameClass x.pyType xs = false →
       InClaim okPath x → (∀ e, e ∈ xs → InClaim okPath e) → InClaim okPath (.list (x :: xs))
   | tuple (xs : List PyVal) : xs ≠ [] → (∀ e, e ∈ xs → InClaim okPath e) → InClaim okPath (.tuple xs)
   | dictEmpty : InClaim okPath (.dict [])
   | dictSame (k v : PyVal) (rest : List (PyVal × PyVal)) (kc : Basic) :
-      allValueInstances v.pyType rest = true →
+      sameValueClass v.pyType rest = true →
       (∀ kv, kv ∈ (k, v) :: rest → inferTy kv.1 = some (.basic kc)) →
       (∀ kv, kv ∈ (k, v) :: rest → fitsBasic okPath kv.1 kc = true) →
       InClaim okPath v → (∀ kv, kv ∈ rest → InClaim okPath kv.2) →
-      (∀ kv, kv ∈ rest → sharesOrFits okPath v kv.2) →
+      (∀ kv, kv ∈ rest → inferTy kv.2 = inferTy v) →
       InClaim okPath (.dict ((k, v) :: rest))
   | dictMixed (k v : PyVal) (rest : List (PyVal × PyVal)) (kc : Basic) :
-      allValueInstances v.pyType rest = false →
+      sameValueClass v.pyType rest = false →
       (∀ kv, kv ∈ (k, v) :: rest → inferTy kv.1 = some (.basic kc)) →
       (∀ kv, kv ∈ (k, v) :: rest → fitsBasic okPath kv.1 kc = true) →
       InClaim okPath v → (∀ kv, kv ∈ rest → InClaim okPath kv.2) →
